@@ -122,10 +122,24 @@ def debug_str_chars(I, chars):
     out = [34]
     for c in chars:
         if is_sym(c):
-            esc = z3.Or(c == 34, c == 92, z3.ULT(c, 32), z3.UGE(c, 127))
-            if I.branch_bool(esc):
-                raise Unsupported("Debug formatting of a symbolic char that needs escaping")
-            out.append(c)
+            from .models_core import char_domain
+            char_domain(I, c)       # ASCII + the printable non-ASCII representatives (none of which Debug escapes)
+            k = I.branch([c == 34, c == 92, c == 10, c == 13, c == 9, z3.Or(z3.ULT(c, 32), c == 127),
+                          z3.Not(z3.Or(c == 34, c == 92, z3.ULT(c, 32), c == 127))])
+            if k == 0:
+                out += [92, 34]
+            elif k == 1:
+                out += [92, 92]
+            elif k == 2:
+                out += [92, 110]
+            elif k == 3:
+                out += [92, 114]
+            elif k == 4:
+                out += [92, 116]
+            elif k == 5:
+                raise Unsupported("Debug formatting of a symbolic control character")
+            else:
+                out.append(c)
         else:
             if c == 34:
                 out += [92, 34]
@@ -195,6 +209,9 @@ def display_chars(I, v):
     d = getattr(v, "display", None)
     if d:
         return d(I)
+    from .models_iter import ListIt
+    if isinstance(v, ListIt) and v.kind == "chars":
+        return list(v.items[v.i:])       # char::ToLowercase / ToUppercase implement Display
     raise Unsupported("Display of %r" % (v,))
 
 
